@@ -45,7 +45,10 @@ def run(ck):
                 ck.fail_input("store_order", l, [hist.get(l.split()[2], ""), l])
     # service stage: commands are dispatched first-in first-out (client.Service, monitor Client/Service.v)
     if ck.build_harness("service"):
-        spath, _ = ck.harness("c17", out_name="c17_for_c15.txt")
+        # only the families that exercise the command queue order
+        sel = os.path.join(ck.work, "c15_service_families.txt")
+        open(sel, "w").write("family=b-dispatch family=conc- family=s1- family=s2- family=s4- family=rand-\n")
+        spath, _ = ck.harness("c17", out_name="c17_for_c15.txt", extra=["-replay", sel])
         slines = ck.model("service", "c17", spath)
         sex = open(spath).read().splitlines()
         per = {}
